@@ -54,10 +54,17 @@ pub fn check_std(env: &Env, class: Class, l: &[u32], s: &str, st: &mut Stats) ->
 /// user-supplied class: fixed assignment over a handful of symbols
 pub struct UserClass {
     pub map: Vec<(u32, DP)>,
+    /// a class whose classifier itself validates a label (re-entrant use of `allows`)
+    pub reentrant: bool,
 }
 
 impl StringClass for UserClass {
     fn get_value_from_char(&self, c: char) -> DerivedPropertyValue {
+        if self.reentrant {
+            // a nested validation of a label with contextual code points, on the same thread
+            let _ = precis_core::FreeformClass::default().allows("l\u{b7}l\u{200d}");
+            let _ = precis_core::IdentifierClass::default().allows("\u{30a2}\u{30fb}");
+        }
         self.get_value_from_codepoint(c as u32)
     }
     fn get_value_from_codepoint(&self, cp: u32) -> DerivedPropertyValue {
@@ -72,8 +79,18 @@ impl StringClass for UserClass {
 pub const USER_SYMS: [u32; 5] = [0x6C, 0xB7, 0x94D, 0x200D, 0x10400];
 
 pub fn check_user(env: &Env, assign: &[DP], l: &[u32], st: &mut Stats) {
+    check_user_variant(env, assign, l, false, st);
+    // labels with two or more contextual code points also through the re-entrant class
+    let nctx = l.iter().filter(|c| **c == 0xB7 || **c == 0x200D).count();
+    if nctx >= 2 {
+        check_user_variant(env, assign, l, true, st);
+    }
+}
+
+pub fn check_user_variant(env: &Env, assign: &[DP], l: &[u32], reentrant: bool, st: &mut Stats) {
     let uc = UserClass {
         map: USER_SYMS.iter().copied().zip(assign.iter().copied()).collect(),
+        reentrant,
     };
     let s = from_cps(l);
     let got = match guard(|| uc.allows(&s)) {
@@ -90,8 +107,8 @@ pub fn check_user(env: &Env, assign: &[DP], l: &[u32], st: &mut Stats) {
     st.traces += 1;
     if !judge(&exp, &got) {
         st.violation(
-            if matches!(got, OutU::Panic(_)) { "panic" } else { "user_class" },
-            || Case::new("user").cps(l).x(json!(assign.iter().map(|d| DP::ALL.iter().position(|x| x == d).unwrap()).collect::<Vec<_>>())),
+            if matches!(got, OutU::Panic(_)) { "panic" } else if reentrant { "user_class_reentrant" } else { "user_class" },
+            || Case::new(if reentrant { "user_reentrant" } else { "user" }).cps(l).x(json!(assign.iter().map(|d| DP::ALL.iter().position(|x| x == d).unwrap()).collect::<Vec<_>>())),
             show_exp(&exp),
             format!("{:?}", got),
         );
@@ -221,7 +238,7 @@ pub fn run(env: &Env, run: &Run) -> (Stats, Coverage) {
     st.sample(json!({"class": "FreeformClass", "label": ["l", "U+00B7", "l", "U+0378"], "expected": "BadCodepoint{cp:0x378, position:3, Unassigned} - the satisfied middle dot does not stop the scan"}));
     st.sample(json!({"class": "user class {l:ContextO, U+00B7:PValid}", "label": ["l"], "expected": "an error naming 'l' at position 0 (no RFC 5892 rule exists for it)"}));
     let cov = Coverage {
-        rule: format!("standard classes: every label of length <= {} over a 25-symbol alphabet holding every derived-property value x every context-rule family x every enabling neighbour x UTF-8 lengths 1-4, plus pumped runs and ASCII block strings, every scalar value in 15 label templates and next to each of its bit-16..20 aliases (incl. every role a context rule inspects), both classes; user classes: all 7^{} assignments of derived-property values to {:?} x all {} labels of length <= {}; oracle = first-offender semantics with RFC 5892 rules (reference), classification taken from the class's own get_value_from_char; non-trivial = label holds a contextual code point or is rejected at index >= 1 behind a multi-byte character", n, k, syms.iter().map(|c| format!("U+{:04X}", c)).collect::<Vec<_>>(), labels.len(), ln),
+        rule: format!("standard classes: every label of length <= {} over a 25-symbol alphabet holding every derived-property value x every context-rule family x every enabling neighbour x UTF-8 lengths 1-4, plus pumped runs and ASCII block strings, every scalar value in 15 label templates and next to each of its 16 other-plane aliases (incl. every role a context rule inspects), both classes; user classes: all 7^{} assignments of derived-property values to {:?} x all {} labels of length <= {} (labels with two or more contextual code points also through a re-entrant class whose classifier itself calls allows); oracle = first-offender semantics with RFC 5892 rules (reference), classification taken from the class's own get_value_from_char; non-trivial = label holds a contextual code point or is rejected at index >= 1 behind a multi-byte character", n, k, syms.iter().map(|c| format!("U+{:04X}", c)).collect::<Vec<_>>(), labels.len(), ln),
         alphabet: json!(sigma.iter().map(|c| format!("U+{:04X}", *c as u32)).collect::<Vec<_>>()),
         bound_completed: format!("tree length <= {} ({} labels x 2 classes); sweep 1,112,064 x 15 templates x 2 classes; user classes {} assignments x {} labels", n, tree_size(sigma.len(), n), nassign, labels.len()),
         exhaustive: false,
@@ -240,11 +257,11 @@ pub fn replay(env: &Env, case: &Case) -> Vec<Violation> {
                 check_std(env, class, l, &from_cps(l), &mut st);
             }
         }
-        "user" => {
+        "user" | "user_reentrant" => {
             if let (Some(l), Some(a)) = (case.strs.first(), case.extra.as_array()) {
                 let assign: Vec<DP> = a.iter().filter_map(|x| x.as_u64().map(|i| DP::ALL[i as usize % 7])).collect();
                 if assign.len() == 5 {
-                    check_user(env, &assign, l, &mut st);
+                    check_user_variant(env, &assign, l, case.op == "user_reentrant", &mut st);
                 }
             }
         }
